@@ -14,6 +14,7 @@ mod hist;
 mod keys;
 mod model;
 mod panics;
+mod parties;
 mod rng;
 mod tamper;
 mod wire;
